@@ -20,6 +20,7 @@ IF = "verif0"
 LOCKDIR = f"/run/lock/ebpf.{IF}.lock"
 PROGRAMS = f"/sys/fs/bpf/{IF}/programs"
 REGION = "teardown_overlaps_start"
+LAST_SIM = None
 
 
 def adversarial_randrange(draws, cands):
@@ -44,6 +45,8 @@ def protocol_harness(nproc, rounds, preemptions, crash):
         eth = pysym.module("ethercat")
         undo = procsim.install(ecm)
         sim = procsim.Sim(preemptions=preemptions, crash=crash)
+        global LAST_SIM
+        LAST_SIM = sim
         fs = sim.fs
         K = dict(attached=None, nextmap=100, installing=set(), tearing=set(),
                  overlap=False, status={}, ecs={}, bad=[], fails=[])
